@@ -201,13 +201,14 @@ def recover(files):
         by_cls_cur.setdefault(k.partition(".")[0], set()).add(k.partition(".")[2])
     # methods first (their names are part of every other use site), then the rest with the method names mapped back
     ren = {}   # (class, current name) -> reference name
-    for phase in ("methods", "attrs"):
+    # (repeated while it finds something: a recovered method name makes the use sites inside that method comparable in the next round)
+    for phase in ("methods", "methods", "methods", "attrs", "methods", "attrs"):
         for cls in sorted(by_cls_ref):
             if cls not in by_cls_cur:
                 continue
             is_m_ref = lambda n: f"{cls}.{n}" in ref["methods"]   # noqa: E731
             is_m_cur = lambda n: f"{cls}.{n}" in cur["methods"]   # noqa: E731
-            missing = sorted(n for n in by_cls_ref[cls] - by_cls_cur[cls] if is_m_ref(n) == (phase == "methods"))
+            missing = sorted(n for n in by_cls_ref[cls] - by_cls_cur[cls] if is_m_ref(n) == (phase == "methods") and n not in {r for (c, _n), r in ren.items() if c == cls})
             new = sorted(n for n in by_cls_cur[cls] - by_cls_ref[cls] if is_m_cur(n) == (phase == "methods") and (cls, n) not in ren)
             if not missing or not new:
                 continue
